@@ -1079,10 +1079,43 @@ class NameMap(FileFamily):
         return N.id_set(loader.convert_one_to_many(v))
 
 
+class UniqueSymbolIDs(FileFamily):
+    """UniqueSymbolIDAssignerLoader: the largest GIR id and the two counters derived from it survive export/restore"""
+    name, cls, whole = "unique_symbol_ids", "UniqueSymbolIDAssignerLoader", True
+    new = _fl("UniqueSymbolIDAssignerLoader")
+
+    def content(self, draw):
+        return {"max": d_int(draw, 100, 5000), "assign": d_int(draw, 0, 3)}
+
+    def save(self, loader, j, spec):
+        loader.save_max_gir_id(spec["max"])
+        for _ in range(spec["assign"]):
+            loader.assign_new_unique_positive_id()
+            loader.assign_new_unique_negative_id()
+
+    def model_save(self, model, j, spec):
+        cs, L, config, schema = _mods()
+        step = config.POSITIVE_GIR_INTERVAL
+        model["max"] = spec["max"]
+        model["pos"] = (spec["max"] + step + step - 1) // step * step + spec["assign"]
+        model["neg"] = model.get("neg", config.BUILTIN_SYMBOL_START_ID) - spec["assign"]
+
+    def probe_views(self, j):
+        return ["max", "pos", "neg"]
+
+    def read(self, loader, view):
+        return N.scalar({"max": loader.max_gir_id, "pos": loader.positive_symbol_id, "neg": loader.negative_symbol_id}[view])
+
+    def default(self, view):
+        cs, L, config, schema = _mods()
+        return {"max": config.DEFAULT_MAX_GIR_ID, "pos": config.DEFAULT_MAX_GIR_ID + config.POSITIVE_GIR_INTERVAL,
+                "neg": config.BUILTIN_SYMBOL_START_ID}[view]
+
+
 FAMILIES = [GIR(), ScopeHierarchy(), ExportSymbols(), ClassMembers(), SymbolNameToScopeIDs(), SymbolNameToDeclIDs(),
             ScopeToAvailableScopes(), ScopeToSymbolInfo(), CFG(), SymbolBitVec(), StateBitVec(), StmtStatusF(), Space(),
             ParamMapping(), DefinedSymbols(), DefinedSymbolsP3(), DefinedStates(), UsedSymbols(), SymbolGraphF(), SFG(),
             OneToMany(), StmtToScope(), UnitToStmtIDs(), CallFormat(), MethodDeclFormat(), ExternalSymbolIDs(), EntryPoints(),
             DefUseSummary(), SummaryTemplate(), InternalCallees(), CallGraphF(), CallPaths(), GroupedMethods(), TypeGraphF(),
-            MethodsInClass(), MethodsInClassInherited(), NameMap()]
+            MethodsInClass(), MethodsInClassInherited(), NameMap(), UniqueSymbolIDs()]
 BY_NAME = {f.name: f for f in FAMILIES}
